@@ -715,9 +715,10 @@ NSEEDS = 3  # the selection depends on VERIF_SEED % NSEEDS: every selection that
 def pick_params(prop, tier, seed):
     seed = seed % NSEEDS
     rnd = random.Random(1000 * seed + int(prop[1:]))
-    nfiles, nwin, wlen = (8, 1, 1) if tier == "quick" else (80, 2, 2)
+    # an oracle observes the whole fix/check run whatever the window is, so breadth = number of fixtures x configurations
+    nfiles, nwin, wlen = (60, 1, 1) if tier == "quick" else (len(ALL_FIXTURES), 1, 2)
     if prop in ("C06", "C08", "C09"):
-        nfiles = 6 if tier == "quick" else 50
+        nfiles = 30 if tier == "quick" else 480
     files = list(PINNED.get(prop, [])) + SKELETONS
     names = [f[0] if isinstance(f, tuple) else f for f in files]
     pool = [f for f in ALL_FIXTURES if f not in names]
@@ -740,7 +741,7 @@ def pick_params(prop, tier, seed):
             out.append({"prop": prop, "fixture": f, "window": [lo, lo + wlen - 1], "conf": conf})
     # structural neighbourhoods: layout alternatives at 3 positions of a window (engine-forked), full pipeline on each
     if prop in ("C01", "C02", "C03", "C07", "C08", "C09", "C10", "C18", "C19"):
-        nv = 4 if tier == "quick" else 70
+        nv = 12 if tier == "quick" else 200
         for f in rnd.sample(ALL_FIXTURES, nv):
             cl = [i for i in code_lines(f) if line_is_relayoutable(read_fixture(f)[i])]
             if cl:
@@ -781,7 +782,7 @@ def make_L(prop, title, extra_functions=()):
         functions = ("vsg.tokens", "vsg.vhdlFile", "vsg.rule_list", "vsg.rule", "vsg.rules", "vsg.token_map", "vsg.parser") + tuple(extra_functions)
         stubs = ()
         assumptions = ("the token structure of the input (which tokens, line breaks, comments) is that of the corpus fixture; only the letter case inside the window is symbolic",)
-        bounds = "corpus fixtures (tests/*/rule_*_test_input.vhd copied to /verif/corpus, plus skeletons) x a window of 1-2 lines whose letters outside comments each carry a symbolic case bit x configuration in {default, jcl, flipA, flipB}; quick: ~10 (fixture, window) pairs chosen by VERIF_SEED plus pinned ones, thorough: ~160; <=64 paths per pair"
+        bounds = "corpus fixtures (the 957 tests/*/rule_*_test_input.vhd files copied to /verif/corpus) x a window of 1-2 lines whose letters outside comments each carry a symbolic case bit x configuration in {default, jcl, flipA..flipF}; plus layout-variation explorations (engine-forked alternatives at 3 positions of a window). quick: pinned pairs + 60 (30 for C06/C08/C09) fixtures and 12 layout windows chosen by VERIF_SEED mod 3, <=24 paths each; thorough: every fixture (480 for C06/C08/C09) and 200 layout windows, <=64 paths each"
         outside = "token structures not in the corpus; symbolic whitespace widths; comment text"
         min_conclusive_share = 0.5
         exception_props = (prop, "C19")
@@ -790,7 +791,7 @@ def make_L(prop, title, extra_functions=()):
             seed = int(os.environ.get("VERIF_SEED", "0") or 0)
             ps = pick_params(prop, tier, seed)
             for q in ps:
-                q["_limits"] = {"shard_paths": 64, "no_split": True}
+                q["_limits"] = {"shard_paths": 24 if tier == "quick" else 64}
             return ps
 
         def run(self, eng, p):
